@@ -57,7 +57,7 @@ def uuids_pointed(e):
     return out
 
 
-def race(sp, rig="L", state="absent", actors=("create_A", "create_B_append"), K=2):
+def race(sp, rig="L", state="absent", actors=("create_A", "create_B_append"), K=2, pause_max_ms=0):
     with Env(sp, rig=rig, clock="tick") as e:
         w = e.world
         path = e.root
@@ -108,7 +108,7 @@ def race(sp, rig="L", state="absent", actors=("create_A", "create_B_append"), K=
                 return kind
             return fn
 
-        sc = Sched(sp, K=K, world=w)
+        sc = Sched(sp, K=K, world=w, pause_max_ms=pause_max_ms)
         w.yield_filter = create_points
         for i, kind in enumerate(actors):
             sc.spawn(i, lambda f=act(i, kind): outcome(f))
@@ -135,6 +135,8 @@ def race(sp, rig="L", state="absent", actors=("create_A", "create_B_append"), K=
                 ok = o[0] == "ok" or isinstance(o[1], ValueError)
             else:
                 ok = o[0] == "ok"
+            if pause_max_ms and isinstance(o[1], TimeoutError):
+                ok = True  # the other creator was paused while holding the lock for longer than the acquisition timeout: a legitimate failure
             sp.require(ok, f"{tag}: actor {i} ({kind}) failed with {o[1]!r} (schedule {trace})", {"sig": f"{tag}:{kind}:failed:{type(o[1]).__name__}"})
         # exactly one initialisation takes effect
         ptr = uuids_pointed(e)
@@ -255,6 +257,9 @@ def obligations(tier):
             obs.append(Ob(f"race.{rig}.{state}.{'+'.join(actors)}.K{K}", "vf.props.c18:race",
                           {"rig": rig, "state": state, "actors": list(actors), "K": K, "_must_reach": ["ran"]}, timeout=T,
                           bounds=f"rig {rig}, initial state {state}, actors {actors}, K={K}", weight=K * 2))
+    obs.append(Ob("race.S.absent.create_A+create_B_append.pauses.K2", "vf.props.c18:race",
+                  {"rig": "S", "state": "absent", "actors": ["create_A", "create_B_append"], "K": 2, "pause_max_ms": 130000, "_must_reach": ["ran"]}, timeout=T,
+                  bounds="rig S, absent, two creators, K=2, symbolic pause 0..130 s at every pre-emption (the 60 s lock lease can lapse mid-creation)", weight=6))
     if tier == "thorough":
         for rig in ("L", "S"):
             obs.append(Ob(f"race.{rig}.absent.3actors.K2", "vf.props.c18:race",
